@@ -25,3 +25,27 @@ def unmodelled(obligation_name):
         if seg not in baseline():
             return seg
     return None
+
+
+class Seen:
+    """object numbering of a heap snapshot: objects first reached below an unmodelled attribute are numbered in a space
+    of their own ("u", n), everything else 0, 1, 2, ... in visiting order"""
+
+    def __init__(self):
+        self.main = {}
+        self.u = {}
+        self.depth_u = 0
+
+    def ref(self, key):
+        if key in self.main:
+            return self.main[key]
+        if self.depth_u and key in self.u:
+            return self.u[key]
+        return None
+
+    def new(self, key):
+        if self.depth_u:
+            self.u[key] = ("u", len(self.u))
+            return self.u[key]
+        self.main[key] = len(self.main)
+        return self.main[key]
